@@ -497,6 +497,24 @@ impl Run {
                 }
                 o
             }
+            // ------------------------------------------------------------ upgrade in the middle of a history
+            "migrate_roundtrip" => {
+                // the store is rewritten into the 1.0.0 layout (raw bytes) and migrated to 1.1.0 again; for
+                // histories whose tracked packets are all staked-asset transfers to the staker this must be
+                // the identity on the abstract state, and the history then continues
+                let cfg = proj::cfg_of(&self.w);
+                let natden = cfg.pointer("/protocol_chain_config/ibc_token_denom").and_then(|x| x.as_str()).unwrap_or("").to_string();
+                let staker = proj::staker_addr(&self.w);
+                let q = self.w.query(json!({"ibc_queue": {}}));
+                let eligible = q["ibc_queue"].as_array().map(|a| a.iter().all(|p| p["amount"]["denom"] == json!(natden) && p["receiver"] == json!(staker))).unwrap_or(false);
+                call["eligible"] = json!(eligible);
+                if !eligible {
+                    TxOut { ok: false, err: "harness: store not expressible in the 1.0.0 layout".into(), ..Default::default() }
+                } else {
+                    crate::migrate::downgrade_1_0_0(&mut self.w, 0);
+                    self.w.tx_migrate(&json!({"v1_0_0_to_v1_1_0": {}}))
+                }
+            }
             // ------------------------------------------------------------ treasury contract
             "t_instantiate" => {
                 use cosmwasm_std::Api;
